@@ -117,7 +117,8 @@ type Term struct {
 	// modes and settings (C04 compares projections of these)
 	DecModes     map[int]bool
 	KeypadApp    bool
-	KittyStack   []int
+	KittyStack   []int // of the active screen: the main and the alternate screen keep separate stacks (kitty keyboard protocol)
+	kittyOther   []int // of the other screen
 	PointerShape string
 	AppID        string
 	Title        string
@@ -169,6 +170,9 @@ func New(cols, rows int, caps Caps) *Term {
 	t.DecModes = map[int]bool{7: true, 25: true}
 	t.PointerShape = "text"
 	t.AppID = caps.AppID
+	if caps.KittyKbd && caps.KittyInitial > 0 {
+		t.KittyStack = []int{caps.KittyInitial}
+	}
 	t.parser = vtref.NewStream()
 	t.tabs = map[int]bool{}
 	switch {
